@@ -274,6 +274,13 @@ theorem self_pointer_rejected (recs : Bytes) (p : Nat) (hi lo : UInt8) (h0 : rec
     ∃ x, composeName recs composeFuel p [] 0 none = .throw x :=
   loops_rejected recs p (no_resolution_self_pointer recs p hi lo h0 h1 h3 hself)
 
+/-- **oob_pointer_rejected**: a pointer into the header or past the end of the message is reported as an error -/
+theorem oob_pointer_rejected (recs : Bytes) (p : Nat) (hi lo : UInt8) (h0 : recs[p]? = some hi)
+    (h1 : recs[p + 1]? = some lo) (h3 : hi.toNat / 64 = 3)
+    (hoob : hi.toNat % 64 * 256 + lo.toNat < 12 ∨ recs.length + 12 ≤ hi.toNat % 64 * 256 + lo.toNat) :
+    ∃ x, composeName recs composeFuel p [] 0 none = .throw x :=
+  loops_rejected recs p (no_resolution_oob_pointer recs p hi lo h0 h1 h3 hoob)
+
 example : ∃ x, composeName [0xc0, 0x0c] composeFuel 0 [] 0 none = .throw x :=
   self_pointer_rejected [0xc0, 0x0c] 0 0xc0 0x0c rfl rfl (by decide) (by decide)
 
